@@ -178,14 +178,38 @@ def check_coerce(ctx: Any, case: dict[str, Any]) -> None:
     ctx.case({"coerce": case}, nontrivial=True, tags=tags)
     if ctx.driver is None:
         return
-    r = ctx.driver.call("C10.coerce", {"decl": [[s2j(f.name), s2j(c10util.ty_str(f))] for f in decl],
-                                       "cols": model_cols(ids, batch), "casts": cast_table(ids, batch, decl)})
-    if "ok" in r:
-        mod: dict[str, Any] = {"ok": [[c01._s(a), c01._s(b), d] for a, b, d in r["ok"]]}
-    else:
-        mod = {"err": {"type": c01._s(r["err"]["type"]), "text": c01._s(r["err"]["text"])}}
-    if mod != impl:
-        ctx.mismatch({"coerce": case}, mod, impl, "_coerce_input_batch vs coerceInput")
+    args = {"decl": [[s2j(f.name), s2j(c10util.ty_str(f))] for f in decl],
+            "cols": model_cols(ids, batch), "casts": cast_table(ids, batch, decl)}
+
+    def compare(r: Any) -> None:
+        if "ok" in r:
+            mod: dict[str, Any] = {"ok": [[c01._s(a), c01._s(b), d] for a, b, d in r["ok"]]}
+        else:
+            mod = {"err": {"type": c01._s(r["err"]["type"]), "text": c01._s(r["err"]["text"])}}
+        if mod != impl:
+            ctx.mismatch({"coerce": case}, mod, impl, "_coerce_input_batch vs coerceInput")
+
+    enqueue(ctx, "C10.coerce", args, compare)
+
+
+QUEUE: list[tuple[str, Any, Any]] = []
+
+
+def enqueue(ctx: Any, fn: str, args: Any, compare: Any) -> None:
+    """model calls are batched: one round trip to the Lean driver per few hundred cases"""
+    QUEUE.append((fn, args, compare))
+    if len(QUEUE) >= 300:
+        flush(ctx)
+
+
+def flush(ctx: Any) -> None:
+    if not QUEUE:
+        return
+    todo = list(QUEUE)
+    QUEUE.clear()
+    res = ctx.driver.batch([(fn, a) for fn, a, _ in todo])
+    for (_, _, compare), r in zip(todo, res):
+        compare(r)
 
 
 COERCE_CORPUS = [
@@ -311,7 +335,7 @@ def configs_for(rng: Any, m: dict[str, Any], thorough: bool) -> list[Config]:
 # ------------------------------------------------------------------------------------------ sessions: model call
 
 
-def model_session(ctx: Any, m: dict[str, Any], ops: list[list[Any]], cfg: Config, brk: Any, decl: pa.Schema, chk: bool | None = None) -> Any:
+def model_args(m: dict[str, Any], ops: list[list[Any]], cfg: Config, brk: Any, decl: pa.Schema, chk: bool | None = None) -> dict[str, Any]:
     ids = DataIds()
     casts: list[list[Any]] = []
     mops: list[list[Any]] = []
@@ -329,7 +353,10 @@ def model_session(ctx: Any, m: dict[str, Any], ops: list[list[Any]], cfg: Config
     args: dict[str, Any] = {"transport": "http" if cfg.kind == "http" else "pipe", "method": md, "ops": mops, "casts": casts, "brk": brk}
     if chk is not None:
         args["chk"] = chk
-    r = ctx.driver.call("C10.session", args)
+    return args
+
+
+def model_decode(r: Any, cfg: Config) -> dict[str, Any]:
     return {"open": [c01.model_ev(e) for e in r["open"]], "session": r["session"],
             "trace": [[c01.model_ev(e) for e in t] for t in r["trace"]],
             "slog": [[e[0], e[1]] + ([[[c01._s(a), c01._s(b)] for a, b in e[2]]] if e[0] == "process" else []) for e in r["slog"]],
@@ -517,7 +544,6 @@ def check_session(ctx: Any, m: dict[str, Any], ops: list[list[Any]], cfg: Config
     oracle(ctx, case, m, ops, cfg, r, decl_fields)
     if ctx.driver is None:
         return
-    mod = model_session(ctx, m, ops, cfg, brk_of(cfg, r), decl)
     impl = {"open": r["open"], "session": r["session"], "trace": r["trace"] if r["session"] else [], "slog": impl_slog(r["events"])}
     # contacts per op: HTTP requests sent / whether the socket client wrote to its transport
     chunks = r["events"][1:len(ops) + 1] if r["session"] else []
@@ -525,9 +551,14 @@ def check_session(ctx: Any, m: dict[str, Any], ops: list[list[Any]], cfg: Config
         impl["contacts"] = [sum(1 for e in chunk if e[0] == "http") for chunk in chunks]
     else:
         impl["contacts"] = [int(any(e[0] == "cwrite" for e in chunk)) for chunk in chunks]
-    if mod != impl:
-        what = next((k for k in ("open", "session", "trace", "slog", "contacts") if mod[k] != impl[k]), "?")
-        ctx.mismatch(case, mod, impl, f"{cfg.label()}: session {what} differs from the Lean op machine")
+
+    def compare(res: Any) -> None:
+        mod = model_decode(res, cfg)
+        if mod != impl:
+            what = next((k for k in ("open", "session", "trace", "slog", "contacts") if mod[k] != impl[k]), "?")
+            ctx.mismatch(case, mod, impl, f"{cfg.label()}: session {what} differs from the Lean op machine")
+
+    enqueue(ctx, "C10.session", model_args(m, ops, cfg, brk_of(cfg, r), decl), compare)
 
 
 def L(t: str) -> dict[str, Any]:
@@ -610,7 +641,7 @@ def run(ctx: Any) -> None:
     rng = ctx.rng
     for c in COERCE_CORPUS:
         check_coerce(ctx, c)
-    for _ in range(ctx.budget(1500, 20000)):
+    for _ in range(ctx.budget(1000, 20000)):
         check_coerce(ctx, gen_coerce_case(rng))
     for m, ops, cfgs in _corpus():
         for cfg in (cfgs if ctx.tier == "thorough" else cfgs[:1] + cfgs[2:4]):
@@ -618,16 +649,21 @@ def run(ctx: Any) -> None:
     exhaustive_grid(ctx)
     ctx.note("grid", "all step scripts of length <= 2 over {emit, finish, emit+finish, raise} x {producer, exchange} x every "
                      "cancel point x {pipe, http, http(cap 1e6)} enumerated")
-    for i in range(ctx.budget(120, 1500)):
+    for i in range(ctx.budget(100, 1500)):
         m = gen_method(rng)
         for cfg in configs_for(rng, m, ctx.tier == "thorough" and i % 3 == 0):
             ops = gen_ops(rng, m, cfg.kind == "http")
             check_session(ctx, m, ops, cfg, cancel_raises=rng.random() < 0.2)
+    if ctx.driver is not None:
+        flush(ctx)
 
 
 def replay(ctx: Any, case: dict[str, Any]) -> None:
     if "coerce" in case:
         check_coerce(ctx, case["coerce"])
-        return
-    t = case["transport"]
-    check_session(ctx, case["method"], case["ops"], Config(t["kind"], t.get("cap"), t.get("codec")), cancel_raises=case.get("cancel_raises", False))
+    else:
+        t = case["transport"]
+        check_session(ctx, case["method"], case["ops"], Config(t["kind"], t.get("cap"), t.get("codec")),
+                      cancel_raises=case.get("cancel_raises", False))
+    if ctx.driver is not None:
+        flush(ctx)
